@@ -50,8 +50,13 @@ class Outcome:
         self.stats[k] = self.stats.get(k, 0) + n
 
 
+# VERIF_EVIDENCE_DIR (debug only, like VERIF_SRC): where evidence and replay files go when a mutated copy of the source is
+# tried, so that the committed evidence of the real tree is not overwritten
+EVDIR = os.environ.get("VERIF_EVIDENCE_DIR") or os.path.join(ROOT, "evidence")
+
+
 def write_replay(prop, payload):
-    d = os.path.join(ROOT, "evidence", "replays")
+    d = os.path.join(EVDIR, "replays")
     os.makedirs(d, exist_ok=True)
     blob = json.dumps(payload, sort_keys=True, default=str)
     h = hashlib.sha1(blob.encode()).hexdigest()[:12]
@@ -208,8 +213,8 @@ def main():
         ev["coverage"]["exhaustive"] = bool(out.exhaustive)
     if harness_error:
         ev["coverage"]["notes"].append("harness error: " + harness_error[-1500:])
-    os.makedirs(os.path.join(ROOT, "evidence"), exist_ok=True)
-    with open(os.path.join(ROOT, "evidence", f"{prop}.json"), "w") as f:
+    os.makedirs(EVDIR, exist_ok=True)
+    with open(os.path.join(EVDIR, f"{prop}.json"), "w") as f:
         json.dump(ev, f, indent=1, default=str)
 
     print(f"[{prop}] tier={args.tier} seed={seed} theorems={len(discharged)}/{len(theorems)} "
